@@ -7,7 +7,7 @@
 #   3. store patch, demo, author's notes, outcomes under /verif/seeded/P-<suffix>/.
 set -u
 suf=$1; shift
-VERIF=/verif; SCRATCH=${SCRATCH:-/tmp/par_seed_eval}
+VERIF=/verif; SCRATCH=${SCRATCH:-/tmp/par_seed_eval.$$}
 mkdir -p "$SCRATCH"
 one() {
   prop=$1; wt=/tmp/wt-${prop}${suf}; id=$prop-$suf
